@@ -173,6 +173,8 @@ class SimPool(cf.Executor):
         sim.ev("submit", self.token, nid, "async" if is_async else "thread", unfinished)
 
         def body() -> None:
+            if any(not it["started"] and not it["f"].cancelled() for it in pool.items[:pool.items.index(item)]):
+                rt.probe("F4_delayed_start_overtaken")
             item["started"] = True
             pool.running += 1
             sim.tls.token = pool.token
